@@ -12,6 +12,7 @@ structure DState where
   pkg : Drv.Pkg.St := {}
   sty : Drv.Styles.St := {}
   heap : Drv.Heap.St := []
+  otb : TableObj.OTbl := TableObj.parsed (Table.parse [] [])
 
 def step (st : DState) (line : String) : DState × String :=
   match (line.trimAscii.toString.splitOn " ").filter (· ≠ "") with
@@ -32,6 +33,7 @@ def step (st : DState) (line : String) : DState × String :=
   | "pk" :: rest => let (p, o) := Drv.Pkg.handle st.pkg rest; ({ st with pkg := p }, o)
   | "row" :: "trav" :: rest => (st, Drv.Row.handleTrav st.row rest)
   | "row" :: rest => let (r, o) := Drv.Row.handle st.row rest; ({ st with row := r }, o)
+  | "otb" :: rest => let (o, a) := Drv.TableObj.handle st.otb rest; ({ st with otb := o }, a)
   | "tbl" :: "x" :: rest =>
     match Drv.Transform.handleTbl st.tbl rest with
     | some (t, o) => ({ st with tbl := t }, o)
